@@ -15,7 +15,7 @@ for f in os.listdir(src):
         shutil.copytree(p, os.path.join(dst, f), dirs_exist_ok=True)
 meta = {'property': prop, 'needs_to_manifest': needs,
         'confirmed': {'compiles': True, 'repository_tests_pass': '19/19', 'demo_fails_with_change': True, 'demo_passes_without_change': True,
-                      'how': '/tmp/seed/confirm(2).sh %s (scratch worktree /tmp/seed/%s: git apply patch.diff; cmake+ninja; ctest -j16; run_demo.sh; git apply -R; rebuild; run_demo.sh)' % (tag, tag)},
+                      'how': '/tmp/seed/confirm.sh %s (scratch worktree /tmp/seed/%s: git apply patch.diff; cmake+ninja; ctest -j16; run_demo.sh; git apply -R; rebuild; run_demo.sh)' % (tag, tag)},
         'origin': 'fresh sub-agent given only the property text and its own scratch worktree', 'caught_by': {}}
 json.dump(meta, open(os.path.join(dst, 'meta.json'), 'w'), indent=1)
 print(dst, os.listdir(dst))
